@@ -319,7 +319,10 @@ def factory_pairs(ctx):
         l1, l2 = r.sample(LAWS, 2)
         P1 = gen_props(r, 'small deformations', l1, False)
         P2 = gen_props(r, 'small deformations', l2, False)
+        ratio = P1['yield strength'] / P2['yield strength']
         P2 = dict({k: v for k, v in P1.items() if k not in LAW_KEYS}, **{k: v for k, v in P2.items() if k in LAW_KEYS})
+        if 'saturation strength' in P2:
+            P2['saturation strength'] *= ratio          # admissible constants: saturation strength relative to the SHARED yield strength
         out.append(('law', order, [P1, P2]))
         # kinematics differs
         k1, k2 = r.sample(KINS, 2)
@@ -402,7 +405,9 @@ def factory_checks(ctx):
                 if en == en and en > eo:
                     Yref = float(ref(en, eo, rec['dt']))
                     tol = 1e-10 * P['yield strength']
-                    rnd = 1e-9 * (abs(rec['s']) + P['yield strength']) + 1e-6 * abs(Yref - rec['Y_new'])
+                    rnd = 1e-9 * (abs(rec['s']) + P['yield strength'])
+                    if rec['dY_new'] == rec['dY_new'] and not math.isinf(rec['dY_new']):
+                        rnd += 8 * abs(rec['dY_new']) * math.ulp(max(en, 1e-300))      # conditioning w.r.t. rounding of the stored eqps (as in concl)
                     if abs(rec['s_new'] - Yref) > tol + rnd and not (cfg['rate'] and rec['r_lo'] <= 0.0 <= rec['r_hi']):
                         ctx.fail('conclusion', 'factory history [%s, creation order %d, model #%d of %d] plastic step %d of history %d: |stress - flow stress asked for| = %r '
                                  '(stress %r, flow stress of the library potentials with these constants %r, flow stress of the factory object %r)'
